@@ -429,7 +429,7 @@ def main(ctx):
     else:
         c5, r5 = tlc_cases(ctx, "CoordsThorough5.cfg", 4, 1800)
         cases += c5
-        max_compiles = 10000
+        max_compiles = 8000
     n_cases = len(cases)
     ev.exhaustive = True
     bad = [c for c in cases if not c.get("valid") or not c.get("ok")]
@@ -451,6 +451,9 @@ def main(ctx):
         for i in range(c0, min(c0 + CHUNK, len(cases))):
             exp = cases[i]
             orders = orders_of(exp["case"]["map"])
+            if not ctx.quick and len(orders) > 2:
+                # thorough: the sorted listing and one other (seeded) per case; quick replays all of them
+                orders = [orders[0], orders[1 + ctx.rng.randrange(len(orders) - 1)]]
             pick = ctx.rng.randrange(len(orders)) if i in chosen else -1
             for k, (oname, o) in enumerate(orders):
                 reqs.append(request(exp, oname, o, True, k == pick, workdir))
